@@ -176,7 +176,7 @@ func c02Malformed(c *mon.Ctx, A *signedTok, name string, pk crypto.PublicKey) {
 }
 
 func runC02(c *mon.Ctx) {
-	c.Rule("for each of ES256/384/512, EdDSA, PS256/384/512 with fresh keys x valid claims-sets of both profiles and a P2 extension, the token produced by the real ValidateAndSign is (1) accepted unmodified under the signer's key (positive control), then attacked - each mutant once through a fresh DecodeEvidenceFromCOSE and once through ONE REUSED Evidence object that has just decoded and verified the original token - with: every single-bit flip; every truncation; 1-8 trailing bytes; splices of protected/payload/signature between two tokens (same key/other payload, other key, other algorithm); signature := random bytes (same / other length), zeros, empty, signature of another message; 2-8 random byte substitutions, random insertions and deletions; algorithm moved to the unprotected header with a signature that is valid for that layout; empty protected header; protected header without label 1; nil payload with a signature valid over the empty payload; signature := well-formed DER ECDSA signatures (of nothing, of random integers, of another message); signature := the same integers in another octet form (a token is signed until r, s or the RSA integer starts with a zero octet, which is then dropped; zero octets prepended / appended); signature := the same octets rearranged (whole / each half reversed, halves swapped, complemented, bit-reversed, rotated, one half doubled); tokens re-signed by another key that bring their own 'proof' along in the unprotected header (self-issued certificate as x5chain / x5bag, key id) or carry a keyless hash-as-signature with the well-known TF-M short-circuit key id, verified under the signer's key, nil and an empty key list; the payload re-serialised into other bytes of the same meaning (tags in front, non-minimal / indefinite map head, other key order, extra unknown key, bstr-wrapped) with the original protected header and signature; the protected header re-serialised into other bytes of the same meaning (non-minimal label / value / map head, indefinite map, extra label, tag) with the original payload and signature; and verification under every other key (same algorithm, other curve/type, nil, non-key values) and under malformed key objects of the right Go type (empty / short / long Ed25519 key, zero-value and nil ECDSA / RSA keys; a panic below the library is counted, a nil error is a violation). Oracle: decode+Verify may only succeed if the independent reader finds payload, protected-header content and signature byte-identical to the signed token and the key is the signer's (NO-VERDICT, counted), or if the independent stdlib verifier itself finds the signature valid for that content and key; Verify must never succeed without protected alg / payload / signature. distinct_nontrivial = distinct (algorithm, profile, mutation class, position bucket) signatures")
+	c.Rule("for each of ES256/384/512, EdDSA, PS256/384/512 with fresh keys x valid claims-sets of both profiles and a P2 extension, the token produced by the real ValidateAndSign is (1) accepted unmodified under the signer's key (positive control), then attacked - each mutant once through a fresh DecodeEvidenceFromCOSE and once through ONE REUSED Evidence object that has just decoded and verified the original token - with: every single-bit flip; every truncation; 1-8 trailing bytes; splices of protected/payload/signature between two tokens (same key/other payload, other key, other algorithm); signature := random bytes (same / other length), zeros, empty, signature of another message; 2-8 random byte substitutions, random insertions and deletions; algorithm moved to the unprotected header with a signature that is valid for that layout; empty protected header; protected header without label 1; nil payload with a signature valid over the empty payload; signature := well-formed DER ECDSA signatures (of nothing, of random integers, of another message); signature := the same integers in another octet form (a token is signed until r, s or the RSA integer starts with a zero octet, which is then dropped; zero octets prepended / appended); signature := the same octets rearranged (whole / each half reversed, halves swapped, complemented, bit-reversed, rotated, one half doubled); tokens re-signed by another key that bring their own 'proof' along in the unprotected header (self-issued certificate as x5chain / x5bag, key id) or carry a keyless hash-as-signature with the well-known TF-M short-circuit key id, verified under the signer's key, nil and an empty key list; B's payload under a protected header that additionally carries a well-formed crit parameter (three variants) with A's / random / constant signatures; a modified token decoded from a buffer that the caller then overwrites in place with the genuine token before Verify; the payload re-serialised into other bytes of the same meaning (tags in front, non-minimal / indefinite map head, other key order, extra unknown key, bstr-wrapped) with the original protected header and signature; the protected header re-serialised into other bytes of the same meaning (non-minimal label / value / map head, indefinite map, extra label, tag) with the original payload and signature; and verification under every other key (same algorithm, other curve/type, nil, non-key values) and under malformed key objects of the right Go type (empty / short / long Ed25519 key, zero-value and nil ECDSA / RSA keys; a panic below the library is counted, a nil error is a violation). Oracle: decode+Verify may only succeed if the independent reader finds payload, protected-header content and signature byte-identical to the signed token and the key is the signer's (NO-VERDICT, counted), or if the independent stdlib verifier itself finds the signature valid for that content and key; Verify must never succeed without protected alg / payload / signature. distinct_nontrivial = distinct (algorithm, profile, mutation class, position bucket) signatures")
 	if err := extprof.Register(extprof.ExtP2Name); err != nil {
 		c.Violation("harness/register", err.Error(), nil)
 		return
@@ -470,6 +470,57 @@ func runC02(c *mon.Ctx) {
 				}
 			}
 			c.Sig(base + "|in-band-proof")
+		}
+		// (5g) protected headers that additionally carry a well-formed `crit`
+		// parameter listing parameters every implementation understands: the token
+		// is otherwise B's payload under A's (now foreign) signature / random bytes
+		{
+			algv := refcbor.I(coseAlgID[alg])
+			for ci, prot := range []*refcbor.Node{
+				refcbor.MapOf(refcbor.I(1), algv, refcbor.I(2), refcbor.Arr(refcbor.I(1))),
+				refcbor.MapOf(refcbor.I(1), algv, refcbor.I(2), refcbor.Arr(refcbor.I(1), refcbor.I(3)), refcbor.I(3), refcbor.Tstr("application/eat-cwt")),
+				refcbor.MapOf(refcbor.I(1), algv, refcbor.I(2), refcbor.Arr(refcbor.I(4)), refcbor.I(4), refcbor.Bstr([]byte("kid"))),
+			} {
+				pb := refcbor.Encode(prot)
+				for si, sg := range [][]byte{A.env.Signature, g.Bytes(len(A.env.Signature)), bytes.Repeat([]byte{0xa5}, len(A.env.Signature))} {
+					c02Judge(c, "crit-header", A, sign1Bytes(pb, nil, B.env.Payload, sg), k.Pub, true, map[string]any{"crit_variant": ci, "signature_variant": si})
+				}
+				// control: the same header properly signed must verify (the judge sees an
+				// independently valid signature and gives no verdict)
+				if sg, err := k.Signer.Sign(rand.Reader, refcose.SigStructure(pb, A.env.Payload)); err == nil {
+					if _, dec, ver, _, _ := libAccepts(sign1Bytes(pb, nil, A.env.Payload, sg), k.Pub); dec && ver {
+						c.Count("crit-header-controls-accepted")
+					} else {
+						c.Count("crit-header-controls-refused")
+					}
+				}
+			}
+			c.Sig(base + "|crit-header")
+		}
+		// (5h) the caller's buffer is the caller's: a modified token is decoded from
+		// a buffer which is then overwritten, in place, with the genuine token
+		// before Verify is called - what was decoded must be what is verified
+		{
+			m := append([]byte{}, A.tok...)
+			// flip one bit inside the payload (same length)
+			if off := bytes.Index(m, A.env.Payload); off >= 0 && len(A.env.Payload) > 8 {
+				m[off+len(A.env.Payload)/2] ^= 0x01
+				buf := append([]byte{}, m...)
+				ev := &psatoken.Evidence{}
+				c.Eval()
+				c.Count("mutants:buffer-swapped-after-decode")
+				if derr := ev.UnmarshalCOSE(buf); derr == nil {
+					copy(buf, A.tok)
+					if verr := ev.Verify(k.Pub); verr == nil {
+						c.Violation("C02/tampered-verified/buffer-swapped-after-decode/"+alg, "a modified token was decoded, the caller then reused the buffer for the genuine token, and Verify on the Evidence holding the MODIFIED claims returned nil", map[string]any{"mutant_hex": mon.Hex(m), "original_hex": mon.Hex(A.tok)})
+					} else {
+						c.Count("outcome:verify-rejected")
+					}
+				} else {
+					c.Count("outcome:decode-rejected")
+				}
+			}
+			c.Sig(base + "|buffer-swapped")
 		}
 		// (5c) the PAYLOAD re-serialised into other bytes (tags in front, non-minimal
 		// map head, indefinite map, other key order, an extra unknown key), original
